@@ -429,7 +429,7 @@ func (f *Frame) execInstr(st *State, in ssa.Instruction) *State {
 		if f.scalarLocal(x) {
 			key := cellKey{f, x}
 			st.locals[key] = env.Zero(elem)
-			f.regs[x] = Value{T: IntLit(-1), Loc: &Loc{Kind: locLocal, Cell: key, Typ: elem}}
+			f.regs[x] = Value{T: IntLit(-1), Loc: &Loc{Kind: locLocal, Cell: key, Typ: elem, Root: elem}}
 			return st
 		}
 		ref := f.allocRef(st, elem)
@@ -502,7 +502,7 @@ func (f *Frame) execInstr(st *State, in ssa.Instruction) *State {
 	case *ssa.MakeClosure:
 		fn := x.Fn.(*ssa.Function)
 		id := vc.freshConst("clo."+fn.Name(), SInt)
-		vc.assumeIn(st, Eq(App(SInt, "fn_code", id), IntLit(int64(vc.fnTag(fn)))))
+		vc.assumeIn(st, And(Eq(App(SInt, "fn_code", id), IntLit(int64(vc.fnTag(fn)))), Not(Eq(id, IntLit(0)))))
 		var bs []Value
 		for _, b := range x.Bindings {
 			bs = append(bs, f.val(b))
